@@ -318,6 +318,11 @@ def tab10(units, R):
             if not touched:
                 tables[d['d']] = [strip_casts(i) for i in d['init']['inits']]
 
+    # const-qualified tables at file scope (a const object is never written: EFF4)
+    for g in u.globals:
+        if g.get('const') and 'init' in g and strip_casts(g['init']).get('k') == 'initlist' and u.ty(g['ty'])['c'] == 'array':
+            tables[g['d']] = [strip_casts(i) for i in strip_casts(g['init'])['inits']]
+
     def equal_edges(pred_call):
         """branch edges on which a strcmp satisfying pred_call compared equal -> list of (node id, label polarity, call)"""
         out = []
